@@ -4,11 +4,14 @@ use std::time::Instant;
 
 use verif_sim::json::{self, Json};
 use verif_sim::util::{self, Evidence};
-use verif_sim::{histsim, rng};
+use verif_sim::{histsim, rng, sessim};
 
 fn main() {
     util::install_quiet_panic_hook();
     let args: Vec<String> = std::env::args().skip(1).collect();
+    if args.first().map(|a| a == "--session-child" || a == "--session-replay").unwrap_or(false) {
+        std::process::exit(sessim::child_main(&args));
+    }
     if let Some(p) = args.iter().position(|a| a == "--replay") {
         let Some(path) = args.get(p + 1) else {
             eprintln!("usage: c11 --replay <file>");
@@ -24,15 +27,27 @@ fn main() {
     println!("C11 tier={tier} seed={root} workers={workers}");
     let start = Instant::now();
     let b = histsim::batch(root, n, workers);
+    // session mode: the real rsjsonnet_front::Session over a real directory, in single-threaded children
+    let sess_n = util::runs_override(if tier == "thorough" { 60_000 * scale } else { 3_000 * scale });
+    let sb = match sessim::batch(root, sess_n, workers) {
+        Ok(b) => b,
+        Err(e) => {
+            eprintln!("HARNESS ERROR: session mode: {e}");
+            std::process::exit(2);
+        }
+    };
     let wall = start.elapsed().as_secs_f64();
+    println!("sim-hist session mode: {} histories, {} requests, {} compared with a fresh Session, {} inconclusive, {} violations", sb.histories, sb.requests, sb.compared, sb.inconclusive, sb.violations.len());
     println!("sim-hist: {} histories ({} fault-injecting), {} requests, {} compared with a fresh state, {} inconclusive, {} violations, {:.1}s", b.histories, b.faulted_histories, b.requests, b.requests_compared, b.inconclusive, b.violations.len(), wall);
     util::dump_hashes("sim-hist", &b.hashes);
     if b.determinism_mismatches > 0 {
         eprintln!("HARNESS ERROR: determinism sample mismatch ({} of {})", b.determinism_mismatches, b.determinism_reexecuted);
         std::process::exit(2);
     }
-    let (code, new_count, known_hit) = util::report("C11", &tier, root, &b.violations);
-    let (reg_n, reg_failed) = util::run_regressions("C11", histsim::replay);
+    let mut all_violations = b.violations.clone();
+    all_violations.extend(sb.violations.iter().cloned());
+    let (code, new_count, known_hit) = util::report("C11", &tier, root, &all_violations);
+    let (reg_n, reg_failed) = util::run_regressions("C11", replay_any);
     let code = if reg_failed > 0 { 1 } else { code };
     let new_count = new_count + reg_failed;
     if tier == "thorough" {
@@ -50,7 +65,8 @@ fn main() {
         wall_s: wall,
         violations: new_count,
         coverage: vec![
-            ("evaluations".into(), Json::Num(b.histories as f64)),
+            ("evaluations".into(), Json::Num((b.histories + sb.histories) as f64)),
+            ("session_mode".into(), Json::obj(vec![("histories", Json::Num(sb.histories as f64)), ("requests", Json::Num(sb.requests as f64)), ("requests_compared_with_fresh_session", Json::Num(sb.compared as f64)), ("inconclusive", Json::Num(sb.inconclusive as f64)), ("relaxation_R1_used", Json::Num(sb.relaxed as f64)), ("faulted_requests_that_failed_with_their_own_fault", Json::Num(sb.faulted_ok as f64)), ("probes", util::counts_to_json(&sb.probes))])),
             ("distinct_nontrivial".into(), Json::Num(b.distinct_nontrivial as f64)),
             ("rule".into(), Json::str("seeded request histories (2-14 requests: load / eval / eval-again / top-level call with TLAs / eval_call with thunk arguments / manifest / value_to_thunk / make_array / gc / drop / set_max_stack) over a generated library shared by 2-5 client sources through import, ext var and arguments; even run indices are fault-free, odd ones inject transient faults (frame limit at a depth drawn from the measured depth of the request, failing import callback, failing native callback); every request's outcome (JSON or error kind+payload+resolved spans+stack trace) is compared with the same request on a fresh Program that received only its prerequisites. distinct = distinct (sequence of request kinds, fault kinds, outcome kind) signatures of requests that re-touch a thunk an earlier aborted request had started.")),
             ("samples".into(), Json::Arr(b.samples.clone())),
@@ -68,7 +84,7 @@ fn main() {
             ("collections_inside_requests".into(), Json::Num(b.gcs_inside_requests as f64)),
             ("probes".into(), util::counts_to_json(&b.probes)),
             ("components".into(), Json::obj(vec![
-                ("real", Json::Arr(["lexer", "parser", "analyzer", "evaluator", "stdlib", "collector", "Program request API"].iter().map(|s| Json::str(*s)).collect())),
+                ("real", Json::Arr(["lexer", "parser", "analyzer", "evaluator", "stdlib", "collector", "Program request API", "rsjsonnet_front::Session incl. import search, source cache and error reporting (session mode)"].iter().map(|s| Json::str(*s)).collect())),
                 ("stub", Json::Arr(["Callbacks implementor with in-memory file table caching one thunk per path (mimics rsjsonnet-front Session)"].iter().map(|s| Json::str(*s)).collect())),
             ])),
             ("determinism_sample".into(), Json::obj(vec![("reexecuted", Json::Num(b.determinism_reexecuted as f64)), ("mismatches", Json::Num(0.0))])),
@@ -86,6 +102,14 @@ fn main() {
     std::process::exit(code);
 }
 
+fn replay_any(scenario: &Json) -> Result<Option<util::Violation>, String> {
+    if scenario.get("mode").and_then(|m| m.as_str()) == Some("session") {
+        sessim::replay(scenario)
+    } else {
+        histsim::replay(scenario)
+    }
+}
+
 fn replay(path: &str) -> i32 {
     let j = match std::fs::read_to_string(path).map_err(|e| e.to_string()).and_then(|t| json::parse(&t)) {
         Ok(j) => j,
@@ -98,7 +122,7 @@ fn replay(path: &str) -> i32 {
         eprintln!("HARNESS ERROR: no scenario in {path}");
         return 2;
     };
-    match histsim::replay(scenario) {
+    match replay_any(scenario) {
         Err(e) => {
             eprintln!("HARNESS ERROR: {e}");
             2
